@@ -66,7 +66,59 @@ class Refusal(Exception):
     pass
 
 
+COORD_OPS = ("sr01", "sr-12", "sr01_override", "sf2", "sf_neg", "sf_vec", "sf_vec_neg", "shift.5", "shift_vec", "shift0", "sf_int1")
+
+
 def _apply(ds, op, model):
+    """_apply_inner plus a second, removal-proof model of revert: every scaling operation is an affine map per dimension; the model
+    composes these maps (F, S: current = F * reference + S, reference = samples at the first scaling since the last overriding one).
+    At revert every SURVIVING sample - whatever was removed, split off or concatenated in between - must return to (current - S) / F."""
+    if op not in COORD_OPS and op != "revert":
+        return _apply_inner(ds, op, model)
+    n, dim = ds.get_length(), ds.get_dim()
+    B = np.array(ds.get_data()[0], dtype=float).reshape(n, -1).copy() if n else None
+    was_scaled = bool(ds.is_scaled()) if n else False
+    omin = None if (not n or ds.get_original_min() is None) else np.atleast_1d(np.array(ds.get_original_min(), dtype=float)).copy()
+    F, S, ok = model.get("F"), model.get("S"), model.get("affine_ok", False)
+    ds2, issues = _apply_inner(ds, op, model)
+    if not n:
+        return ds2, issues
+    A = np.array(ds2.get_data()[0], dtype=float).reshape(n, -1)
+    if op == "revert":
+        if ok and F is not None and A.shape == B.shape:
+            want = (B - S) / F
+            contains = omin is not None and omin.shape == (A.shape[1],) and bool(np.all(np.abs(want.min(axis=0) - omin) <= 1e-8 * np.maximum(1.0, np.abs(omin))))
+            if not np.all(np.abs(A - want) <= 1e-8 * np.maximum(1.0, np.abs(want))):
+                issues.append(("revert_restores_surviving_samples", "samples before revert %r, after %r, reference positions of these samples %r (original minimum %r)"
+                               % (B.tolist(), A.tolist(), want.tolist(), None if omin is None else omin.tolist()), {"set_contains_original_minimum": contains}))
+        model["F"], model["S"], model["affine_ok"] = None, None, False
+        return ds2, issues
+    if A.shape != B.shape:
+        model["affine_ok"] = False
+        return ds2, issues
+    if (not was_scaled) or op.endswith("override"):
+        F, S, ok = np.ones(A.shape[1]), np.zeros(A.shape[1]), True      # the reference is the set as it was before this operation
+    f, sh = np.ones(A.shape[1]), np.zeros(A.shape[1])
+    for k in range(A.shape[1]):
+        i, j = int(np.argmin(B[:, k])), int(np.argmax(B[:, k]))
+        if B[j, k] - B[i, k] > 1e-12:
+            f[k] = (A[j, k] - A[i, k]) / (B[j, k] - B[i, k])
+            sh[k] = A[i, k] - f[k] * B[i, k]
+        elif op.startswith("sf"):
+            fac = {"sf2": 2.0, "sf_neg": -2.0, "sf_int1": 1.0}.get(op)
+            f[k] = fac if fac is not None else ([2.0, 0.5] if op == "sf_vec" else [-1.5, 0.5])[k]
+        else:
+            sh[k] = A[i, k] - B[i, k]          # zero extent: a range scaling can only move the dimension
+        if abs(f[k]) < 1e-300:
+            ok = False
+    if ok and F is not None:
+        model["F"], model["S"], model["affine_ok"] = f * F, f * S + sh, True
+    else:
+        model["affine_ok"] = False
+    return ds2, issues
+
+
+def _apply_inner(ds, op, model):
     """returns (ds, issues); issues = list of (oracle, detail)"""
     from sparseSpACE.DEMachineLearning import DataSet
     issues = []
@@ -301,9 +353,10 @@ def _dfs(name, ds, model, seq, depth, fails, seen, counter, ops=None):
                 f["case"] = {"config": {"init": name, "prefix": seq2, "depth": len(seq2)}}
                 fails.append(f)
             continue
-        for oracle, detail in issues:
-            key = {"op": op.split("_cat")[0]}
-            sig = (oracle, op)
+        for it in issues:
+            oracle, detail, extra = it[0], it[1], (it[2] if len(it) > 2 else {})
+            key = dict({"op": op.split("_cat")[0]}, **extra)
+            sig = (oracle, op, tuple(sorted(extra.items())))
             if sig not in seen:
                 seen.add(sig)
                 f = fail(oracle, "init %s, sequence %r: %s" % (name, seq2, detail), key)
@@ -335,9 +388,10 @@ def run_case(case):
                                       {"op": op.split("_cat")[0], "type": type(e).__name__, "dim1": INITS[c["init"]][0].ndim == 2 and INITS[c["init"]][0].shape[1] == 1})],
                     "canon": core.config_key(c), "outcome": ("exception",), "nontrivial": True, "evals": 1}
         if last:
-            for oracle, detail in issues:
-                fails.append(fail(oracle, "init %s, sequence %r: %s" % (c["init"], c["prefix"], detail), {"op": op.split("_cat")[0]}))
-                seen.add((oracle, op))
+            for it in issues:
+                oracle, detail, extra = it[0], it[1], (it[2] if len(it) > 2 else {})
+                fails.append(fail(oracle, "init %s, sequence %r: %s" % (c["init"], c["prefix"], detail), dict({"op": op.split("_cat")[0]}, **extra)))
+                seen.add((oracle, op, tuple(sorted(extra.items()))))
     _dfs(c["init"], ds, model, list(c["prefix"]), c["depth"], fails, seen, counter, c.get("ops"))
     return {"failures": fails, "canon": core.config_key(c), "outcome": (counter[0], len(fails), tuple(_ms(ds))[:2]), "nontrivial": True,
             "evals": counter[0] + 1}
@@ -378,7 +432,7 @@ def main(ctx):
     return ctx.finish(
         rule="every operation sequence up to the stated depth over the 35-operation alphabet on 7 initial data sets (one case = all "
              "completions of a prefix; evaluations = executed operations), lock-step with the reference model after every step",
-        assumptions=["revert-restores-original is only demanded while no sample was removed since the first scaling (the statement lists "
+        assumptions=["second revert model (affine maps composed per dimension): every surviving sample must return to its reference position whatever was removed or split off in between; known finding when the set no longer contains the original minimum", "multiset form of revert-restores-original is only demanded while no sample was removed since the first scaling (the statement lists "
                      "scalings, shifts and factors 'in between')", "an exception on an EMPTY set counts as refusal of a degenerate input",
                      "shuffle permutation chosen by the explorer (reverse and rotation); np.random is not reachable",
                      "attribute propagation compared field by field (range, factor, original min/max, scaled flag)"])
